@@ -277,6 +277,17 @@ func c20Templates() []*c20Tpl {
 		}
 		t.line = 5
 	})
+	add("text-name-equals-generated-text-first", func(t *c20Tpl) {
+		tn := t.atoms.New(ClsIdent, "text", "")
+		c := t.atoms.New(ClsPlainCmd, "cmd", "")
+		t.src = func() string {
+			return lines("text "+ph(tn)+" {", "  \"abc$\"", "}", "script MyScript {", "  "+ph(c)+"(\"one$\")", "  "+ph(c)+"(\"two$\")", "}")
+		}
+		t.bad = func(x *OracleCtx) interp.Value {
+			return interp.SymBool{T: interp.Or(interp.BoolTerm(interp.StrEq(tn.Val, "MyScript_Text_0")), interp.BoolTerm(interp.StrEq(tn.Val, "MyScript_Text_1")))}
+		}
+		t.line = 1
+	})
 	add("movement-name-equals-generated", func(t *c20Tpl) {
 		mn := t.atoms.New(ClsIdent, "movement", "")
 		c := t.atoms.New(ClsPlainCmd, "cmd", "")
